@@ -68,6 +68,31 @@ func (match4Engine) Run(ctx *fw.Ctx, cs any) {
 	var datas [][]byte
 	peerOf := map[int]string{} // requests that do not come from the usual peer address
 	xid := uint32(rng.Intn(1<<20)) << 8
+	// (0) before anything else (a dynamic range in the chain still has addresses to give): eight clients get a
+	// lease, reboot and confirm an address (INIT-REBOOT: a REQUEST with neither server identifier nor ciaddr and
+	// option 50 = the lease they hold, a neighbour's, the next free one, one outside every range), relayed with
+	// the broadcast bit clear or set, or direct. ACK, NAK or silence - the answer mirrors this request
+	for k := 0; k < 8; k++ {
+		mac := []byte{2, 0, 0, 0, 7, byte(k)}
+		xid++
+		p0 := pkt.Request4(xid, mac, byte(1+2*(k%2)), pkt.O4(55, 1, 3, 6))
+		p0.Gi, p0.Hops = pkt.IP4("10.9.9.9"), 1
+		datas = append(datas, p0.Bytes())
+		for j, want := range [][4]byte{{10, 77, 0, byte(100 + k)}, {10, 77, 0, byte(100 + (k+1)%8)}, {10, 77, 0, byte(120 + k)}, {192, 168, 99, byte(k)}, {10, 77, 0, 250}} {
+			xid++
+			p := pkt.Request4(xid, mac, 3, pkt.O4(50, want[:]...), pkt.O4(55, 1, 3, 6))
+			if k%3 == 0 {
+				p.Opts = append(p.Opts, pkt.O4(61, 1, 2, 0, 0, 0, 7, byte(k)))
+			}
+			switch (k + j) % 3 {
+			case 0:
+				p.Gi, p.Hops = pkt.IP4("10.9.9.9"), 1
+			case 1:
+				p.Gi, p.Hops, p.Flags = pkt.IP4("10.9.9.9"), 1, 0x8000
+			}
+			datas = append(datas, p.Bytes())
+		}
+	}
 	// (1) the opcode x message-type matrix
 	types := [][]byte{nil}
 	for t := 0; t <= 18; t++ {
@@ -250,6 +275,27 @@ func (match4Engine) Run(ctx *fw.Ctx, cs any) {
 			p2.Ci = a
 			peerOf[len(datas)] = net.IP(a[:]).String()
 			datas = append(datas, p2.Bytes())
+		}
+	}
+	// (1e) the same clients after a reboot (INIT-REBOOT: a REQUEST with neither server identifier nor ciaddr that
+	// names an address in option 50 - the one the server gave them, a neighbour's, one outside every range),
+	// relayed with the broadcast bit clear, relayed with it set, and direct: whatever the answer is (ACK, NAK,
+	// silence), it mirrors this request's own flags, giaddr and identifiers
+	for k := 0; k < 12; k++ {
+		mac := []byte{2, 0, 0, 0, 6, byte(k)}
+		for _, want := range [][4]byte{{10, 77, 0, byte(100 + k)}, {10, 77, 0, byte(101 + 7*k)}, {10, 77, 0, byte(60 + k)}, {192, 168, 99, byte(k)}} {
+			xid++
+			p := pkt.Request4(xid, mac, 3, pkt.O4(50, want[:]...), pkt.O4(55, 1, 3, 6))
+			if k%3 == 0 {
+				p.Opts = append(p.Opts, pkt.O4(61, 1, 2, 0, 0, 0, 6, byte(k)))
+			}
+			switch (k + int(want[3])) % 3 {
+			case 0:
+				p.Gi, p.Hops = pkt.IP4("10.9.9.9"), 1
+			case 1:
+				p.Gi, p.Hops, p.Flags = pkt.IP4("10.9.9.9"), 1, 0x8000
+			}
+			datas = append(datas, p.Bytes())
 		}
 	}
 	// (2) generated and mutated datagrams
